@@ -256,7 +256,7 @@ def target_consumed(chk, F):
     ctor = [n for n in hir_walk(h["body"]) if n.get("k") == "Call" and n["f"].get("k") == "Path" and n["f"]["r"].get("ctor_of", "").endswith("Query::Convert")]
     if not ctor:
         raise AnchorLost("parse_query: Query::Convert construction not found")
-    gated = 0
+    gated_ids = set()
     for m in hir_walk(h["body"]):
         def looks_at_next_token(scrut):
             """the scrutinee is the next token: iter.peek() itself, or a local helper whose body peeks (after skipping comments)"""
@@ -270,8 +270,8 @@ def target_consumed(chk, F):
             return False
         if m.get("k") == "Match" and m.get("src") == "Normal" and looks_at_next_token(m["scrut"]):
             for a in m["arms"]:
-                if "Token::Eof" in H.pat_str(a["pat"]) and any(x is c for c in ctor for x in hir_walk(a["body"])):
-                    gated += sum(1 for c in ctor if any(x is c for x in hir_walk(a["body"])))
+                if H.pat_str(a["pat"]).replace(" ", "") in ("Token::Eof", "Option::Some(Token::Eof)") and any(x is c for c in ctor for x in hir_walk(a["body"])):
+                    gated_ids |= {id(c) for c in ctor if any(x is c for x in hir_walk(a["body"]))}
     # the unit-list form is built from parse_unitlist, which itself only succeeds at the end of the input
     lists = [c for c in ctor if "Conversion::List" in H.expr_str(c, 200)]
     if lists:
@@ -287,12 +287,15 @@ def target_consumed(chk, F):
                     for a in m["arms"]:
                         if any(b2 is b for b in brk for b2 in hir_walk(a["body"])):
                             arms_with_break.append(H.pat_str(a["pat"]))
-            ok_list = ok_list or (bool(brk) and len(arms_with_break) == len(brk) and all("Token::Eof" in p for p in arms_with_break))
-        chk.decide(ok_list, "target-consumed", fk, "unit-list-ends-at-end-of-input", ul.where(),
-                   "parse_unitlist leaves its loop only on the end of the input (every other way out returns None)",
-                   "parse_unitlist can succeed before the end of the input")
+            # the list ends only at the real end of the input: an arm that also leaves on a comment or a line end does not count
+            ok_list = ok_list or (bool(brk) and len(arms_with_break) == len(brk) and all(p.replace(" ", "") == "Token::Eof" for p in arms_with_break))
+        behind_eof = all(id(c) in gated_ids for c in lists)
+        chk.decide(ok_list or behind_eof, "target-consumed", fk, "unit-list-ends-at-end-of-input", ul.where(),
+                   "the unit-list conversion is built only when nothing follows the list (%s)" % ("the list parser leaves its loop only on Eof" if ok_list else "parse_query tests for the end of the input after the list"),
+                   "parse_unitlist also succeeds at a comment or a line end and parse_query does not look at what follows: `1 m -> ft, inch /**/ / s` is answered as `-> ft, inch`")
         if ok_list:
-            gated += len(lists)
+            gated_ids |= {id(c) for c in lists}
+    gated = len(gated_ids)
     chk.decide(gated == len(ctor), "target-consumed", fk, "convert-only-at-end-of-input", "%s:%d" % (fn.file, ctor[0]["line"]),
                "Query::Convert is built only in the arm where the next token is the end of the input",
                "Query::Convert is built without checking that the input ends after the target (%d of %d constructions are behind an end-of-input arm): "
